@@ -9,6 +9,9 @@ loop, `Dispatcher.handle_request`, codec) of an in-process node (`vf.nodes.Node`
 Sub-checks (named, so that the concurrent part can be added next to them):
   codec    decode_msg(encode_msg_frame(*t)) == t over a triple catalogue; encode_msg_frame(*decode_msg(l)) == l over
            canonical lines
+  blanks   every "space look-alike" (characters that str.strip / split / isspace treat as white space, the wire format does
+           not) x every position at the edges of line / action / specifier / data x base request; cuts around and inside
+           the character, one-byte chunks
   lines    every catalogue line as a one-line stream (and followed by a partial line): all oracles; every single cut,
            all pairs of cuts (base lines; thorough: every line up to 160 bytes) resp. pairs of the cuts next to both
            ends / the middle / LF / 1024 boundaries, one-byte chunks, a timeout in the gaps
@@ -41,8 +44,10 @@ Oracle calibration (weaker reading wherever the statement leaves latitude)
     have no effect); O7/O8 are only demanded for those - a successful `change` legitimately changes later answers.
   * the specifier echo is demanded for error replies of lines that decode (valid UTF-8, strict-JSON data); for positive
     replies the statement is ambiguous ("..., or error_<action> with a SECoP error class, echoing the request's
-    specifier") - positive replies that do not echo (`deactivate m` -> `inactive`, `describe` -> `describing .`) are
-    only counted (`outcomes['positive-reply-without-echo:...']`).
+    specifier") - positive replies that carry no specifier (`deactivate m` -> `inactive`, `help x` -> `helping`) are
+    only counted (`outcomes['positive-reply-without-echo:...']`), `describing .` is SECoP's answer to `describe`; but a
+    positive reply that does carry a specifier must carry the request's, byte-exact (`ping nonce<US>` -> `pong nonce`
+    answers a request that was not made).
   * for a line whose first token is not valid UTF-8 "the action" is undefined: only the prefix `error_` is demanded.
   * leading / trailing white space (frappy strips b' \\t\\r\\x0b\\x0c'): both readings (stripped / only a trailing CR
     removed) are accepted, for the action as well as for the specifier.
@@ -75,6 +80,13 @@ PROPERTY = 'C07'
 T0 = 1700000000.0          # the constant clock
 LF = b'\n'
 WS = b' \t\r\x0b\x0c'       # what bytes.strip() removes (LF never occurs inside a line)
+# every character that Python's str.strip() / str.split() / str.isspace() take for white space although the wire format
+# does not (blank = 0x20, line end = LF, tolerated CR): VT FF, the separators FS GS RS US, NEL, NBSP, OGHAM SPACE,
+# U+2000..U+200A, LS, PS, NNBSP, MMSP, IDEOGRAPHIC SPACE ...
+SPACE_LOOKALIKES = (0x0b, 0x0c, 0x1c, 0x1d, 0x1e, 0x1f, 0x85, 0xa0, 0x1680) + tuple(range(0x2000, 0x200b)) + \
+    (0x2028, 0x2029, 0x202f, 0x205f, 0x3000)
+# ... and two controls that look like them but are no white space for Python either (ZWSP, BOM)
+NO_SPACE_CONTROLS = (0x200b, 0xfeff)
 
 
 # ---------------------------------------------------------------------------------------------
@@ -278,10 +290,11 @@ def _utf8(b):
 
 class Req:
     """what a request line (bytes without the LF) is, read by the framing rule alone"""
-    __slots__ = ('raw', 'readings', 'is_help', 'decodes', 'jsonclass', 'actions', 'specs')
+    __slots__ = ('raw', 'readings', 'is_help', 'decodes', 'jsonclass', 'actions', 'specs', 'lookalike')
 
     def __init__(self, raw):
         self.raw = raw
+        self.lookalike = any(m in raw for m in lookalike_bytes()[0][2:])      # VT / FF are plain ASCII white space
         bodies = []
         for body in (raw[:-1] if raw.endswith(b'\r') else raw, raw.strip(WS)):
             if body not in bodies:
@@ -346,6 +359,8 @@ class Req:
         lc = self.jsonclass
         if len(self.readings) > 1:
             lc += '+blank-padded'
+        if self.lookalike:
+            lc += '+space-lookalike'
         if len(self.raw) >= MESSAGE_READ_SIZE:
             lc += '+long'
         return lc
@@ -355,6 +370,21 @@ class Req:
 
     def __repr__(self):
         return '<req>'
+
+
+_LOOKALIKE = []
+
+
+def lookalike_bytes():
+    """-> (UTF-8 encodings of SPACE_LOOKALIKES, of NO_SPACE_CONTROLS); checks that the table is what this Python's str
+    methods take for white space (else the catalogue would silently miss a class)"""
+    if not _LOOKALIKE:
+        want = tuple(c for c in range(0x3100) if chr(c).isspace() and c not in (0x09, 0x0a, 0x0d, 0x20))
+        if want != SPACE_LOOKALIKES or any(chr(c).isspace() for c in NO_SPACE_CONTROLS):
+            raise core.Inconclusive(f'str.isspace() of this interpreter disagrees with SPACE_LOOKALIKES: {[hex(c) for c in want]}')
+        _LOOKALIKE.append(tuple(chr(c).encode('utf-8') for c in SPACE_LOOKALIKES))
+        _LOOKALIKE.append(tuple(chr(c).encode('utf-8') for c in NO_SPACE_CONTROLS))
+    return _LOOKALIKE
 
 
 def _is_handler_name(a):
@@ -475,6 +505,11 @@ def judge_output(reqs, out, part, case, where):
             part.outcomes[f'{req.cls()}->error:{d[0]}'] += 1
         else:
             if req.decodes and s not in req.specs:
+                if s and not (a == REQUEST2REPLY['describe'] and s == '.'):
+                    part.violation(f'C07:O4:positive-reply-carries-a-different-specifier:{a}:{req.lcls()}', case,
+                                   f'request {req.raw[:80]!r} answered {raw[:160]!r}: specifier {s!r}, the request\'s is '
+                                   f'{" or ".join(repr(x) for x in req.specs)}')
+                    continue
                 part.outcomes[f'positive-reply-without-echo:{a}'] += 1
             part.outcomes[f'{req.cls()}->{a}'] += 1
     return [e[0] for e in replies]
@@ -752,9 +787,88 @@ def special_lines():
                            b'logging m ["debug"]', b'logging m:value "debug"', b'logging . {"a":1}',
                            b'change m:_s "' + b'a' * 6000 + b'"', b'a' * 6000, b'read m:' + b'\xff' * 5000,
                            b'change m:_s "' + b'a' * 1010 + b'"', b'change m:_s "' + b'a' * 1009 + b'"',
-                           b'change m:_s "' + b'a' * 1008 + b'"', b'change m:_s "' + b'a' * 2033 + b'"')):
+                           b'change m:_s "' + b'a' * 1008 + b'"', b'change m:_s "' + b'a' * 2033 + b'"',
+                           b'ping nonce\x1f', b'ping \xc2\xa0x', b'deactivate\x1c', b'\xc2\xa0deactivate',
+                           b'read m:value\xe2\x80\xa8', b'*IDN?\xe3\x80\x80', b'\xc2\x85read m:value')):
         add(f'special-{i}', l)
     return S
+
+
+LOOKALIKE_BASES_QUICK = ('ident', 'ping-x', 'read-value', 'deactivate', 'deactivate-m', 'change-target', 'help', 'describe')
+
+
+def lookalike_lines(tier, ci):
+    """the request lines of space look-alike number `ci` (index into SPACE_LOOKALIKES + NO_SPACE_CONTROLS): the character
+    alone, and for every base request at the start and the end of the line, on both sides of each separating blank
+    (end of action, start / end of specifier, start of data), instead of the first blank, and at both ends at once"""
+    spaces, controls = lookalike_bytes()
+    ch = (spaces + controls)[ci]
+    out, seen = [], set()
+
+    def put(tag, l):
+        if l not in seen and LF not in l:
+            seen.add(l)
+            out.append((tag, l))
+    put('alone', ch)
+    put('twice', ch + ch)
+    put('between-blanks', b' ' + ch + b' ')
+    for name, a, s, d in base_lines():
+        if tier == 'quick' and name not in LOOKALIKE_BASES_QUICK:
+            continue
+        line = join(a, s, d)
+        put(f'lead@{name}', ch + line)
+        put(f'trail@{name}', line + ch)
+        put(f'lead+trail@{name}', ch + line + ch)
+        put(f'trail-before-cr@{name}', line + ch + b'\r')
+        put(f'end-of-action@{name}', a + ch + line[len(a):])
+        if s:
+            put(f'start-of-specifier@{name}', join(a, ch + s, d))
+            put(f'end-of-specifier@{name}', join(a, s + ch, d))
+            put(f'instead-of-blank@{name}', a + ch + line[len(a) + 1:])
+        else:
+            put(f'as-specifier@{name}', join(a, ch, d))
+        if d:
+            put(f'start-of-data@{name}', join(a, s, ch + d))
+    return out
+
+
+def lookalike_segs(stream, ch):
+    """in one piece is the base; cuts on both sides of every occurrence of the character and inside it (multi-byte
+    encodings), one-byte chunks"""
+    n = len(stream)
+    pos = set()
+    i = stream.find(ch)
+    while i >= 0:
+        pos.update(range(i, i + len(ch) + 1))
+        i = stream.find(ch, i + 1)
+    for c in sorted(p for p in pos if 0 < p < n):
+        yield (c,), ()
+    if n > 2:
+        yield tuple(range(1, n)), ()
+
+
+def shard_blanks(shard):
+    """sub-check `blanks`: shard = index of one space look-alike"""
+    tier = core.TIER
+    part = core.Part()
+    spaces, controls = lookalike_bytes()
+    ch = (spaces + controls)[shard]
+    rig = Rig()
+    solo = Solo(rig, tier)
+    try:
+        for tag, line in lookalike_lines(tier, shard):
+            stream = line + LF
+            part.states += 1
+            part.nontrivial += 1
+            base = check_stream(rig, stream, part, 'space-lookalike', solo)
+            segs = lookalike_segs(stream, ch) if tier == 'quick' else line_segs(stream, tier, full=False)
+            explore_segmentations(rig, stream, base, segs, part, {'sub': 'stream', 'stream': hexs(stream),
+                                                                   'where': 'space-lookalike'})
+            if part.states % 61 == 1:
+                part.sample({'stream': repr(stream), 'tag': f'U+{ord(ch.decode()):04X} {tag}', 'output': repr(base[:120])})
+    finally:
+        rig.close()
+    return part
 
 
 _CAT = {}
@@ -1231,6 +1345,8 @@ def _run_sequential(ctx):
 
     if want('codec'):
         ctx.pmap(shard_codec, [[i] for i in range(len(codec_triples(tier)[0]))], name='codec')
+    if want('blanks'):
+        ctx.pmap(shard_blanks, list(range(len(SPACE_LOOKALIKES) + len(NO_SPACE_CONTROLS))), name='blanks')
     if want('lines'):
         ctx.pmap(shard_lines, [(i, min(i + 4, n)) for i in range(0, n, 4)], name='lines')
     sshards, nstreams, fullmax = short_shards(tier)
@@ -1247,7 +1363,11 @@ def _run_sequential(ctx):
     ctx.rule = (
         'enumeration: request-line catalogue = grammar of valid/refused SECoP requests (every action) + byte-level mutation '
         'catalogue (invalid UTF-8, broken/truncated/non-strict JSON, missing/extra fields, blanks, CR, control bytes, unknown and '
-        'handler-colliding actions, lines > 1024 and > 4096 bytes), deduplicated by bytes. lines: every catalogue line (and line + '
+        'handler-colliding actions, lines > 1024 and > 4096 bytes), deduplicated by bytes. blanks: every character that Python str '
+        'methods take for white space but the wire format does not (VT FF FS GS RS US NEL NBSP U+1680 U+2000-200A LS PS U+202F U+205F '
+        'U+3000; + ZWSP, BOM as controls) x position (alone, start / end of line, both, before CR, end of action, start / end of '
+        'specifier, instead of the blank, start of data) x base request (8 quick, all thorough) x cuts around and inside the '
+        'character + one-byte chunks. lines: every catalogue line (and line + '
         'partial line) x all cut sets with <= 2 cuts (all offsets up to 64/160 bytes, else offsets around LF / 1024 boundaries) + '
         'one-byte chunks + a timeout in every gap. short: every stream of <= FULLMAX bytes made of 1-3 short lines (+ partial line) '
         'x all 2^(n-1) cut sets + timeouts. pairs: (line, probe) and (probe, line) two-line streams (thorough: + all ordered pairs of the quick catalogue) x '
